@@ -204,6 +204,16 @@ pub fn cfg_strategy() -> impl Strategy<Value = DevCfg> {
     })
 }
 
+/// calls the nb application makes in mid-transaction (`Board::nb_meddle`): none in half of the histories,
+/// otherwise a sparse or a dense pattern
+pub fn meddle_pattern(seed: u64) -> u32 {
+    match (seed >> 16) % 4 {
+        0 | 1 => 0,
+        2 => ((seed >> 24) & (seed >> 40)) as u32,
+        _ => (seed >> 24) as u32,
+    }
+}
+
 /// general random histories: OTAA (join first) or ABP, any region / front-end
 pub fn history_strategy(max_steps: usize) -> impl Strategy<Value = History> {
     (cfg_strategy(), any::<bool>(), any::<u64>(), rng_script_strategy(), (any::<bool>(), snr_strategy())).prop_flat_map(move |(cfg, otaa, seed, script, (nb_async, snr))| {
@@ -212,7 +222,7 @@ pub fn history_strategy(max_steps: usize) -> impl Strategy<Value = History> {
         let first = if otaa { join_accept_strategy(reg, true).prop_map(|r| vec![Step::Join(RxPlan::rx1(r))]).boxed() } else { Just(vec![]).boxed() };
         (first, proptest::collection::vec(step_strategy(reg, class_c, true), 1..=max_steps)).prop_map(move |(mut pre, steps)| {
             pre.extend(steps);
-            History { cfg: cfg.clone(), activation: if otaa { Activation::Otaa } else { Activation::Abp { fcnt_up: 0, fcnt_down: None } }, board: Board { nb_async_tx: nb_async, snr, nb_duration_ms: [100, 100, 100, 999, 1000, 1500][(seed % 6) as usize], tx_ms: if cfg.front == FrontKind::Nb { [0u32, 0, 7, 0x7FFF_FD00, 0xFFFF_FB00, 0xFFFF_FFFF][((seed >> 8) % 6) as usize] } else { [0u32, 0, 40, 2800][((seed >> 8) % 4) as usize] }, ..Default::default() }, rng_script: script.clone(), rng_seed: seed, steps: pre }
+            History { cfg: cfg.clone(), activation: if otaa { Activation::Otaa } else { Activation::Abp { fcnt_up: 0, fcnt_down: None } }, board: Board { nb_async_tx: nb_async, snr, nb_duration_ms: [100, 100, 100, 999, 1000, 1500][(seed % 6) as usize], tx_ms: if cfg.front == FrontKind::Nb { [0u32, 0, 7, 0x7FFF_FD00, 0xFFFF_FB00, 0xFFFF_FFFF][((seed >> 8) % 6) as usize] } else { [0u32, 0, 40, 2800][((seed >> 8) % 4) as usize] }, nb_meddle: meddle_pattern(seed), ..Default::default() }, rng_script: script.clone(), rng_seed: seed, steps: pre }
         })
     })
 }
